@@ -74,6 +74,14 @@ func c20Run(c *mon.Ctx) {
 		if err != nil || u.UnmarshalText(txt) != nil || u != t {
 			bad("type-text-marshalling", "record type %d marshals to %q, which unmarshals to %d", i, txt, u)
 		}
+		// the returned bytes belong to the caller: writing into them must not change what the type marshals to next
+		want := string(txt)
+		for j := range txt {
+			txt[j] = '?'
+		}
+		if again, err := t.MarshalText(); err != nil || string(again) != want {
+			bad("type-text-marshalling-aliased", "record type %d marshalled to %q; after the caller overwrote those bytes it marshals to %q", i, want, again)
+		}
 		first := aucoalesce.GetAuditEventType(t)
 		for k := 0; k < 64*reps; k++ {
 			if aucoalesce.GetAuditEventType(t) != first {
